@@ -1078,7 +1078,6 @@ package serf
 // obligations (index, slice, nil, map write, type assertion, close, division) of every function that touches bytes
 // received from the network to be decided for arbitrary input. Decoded values are arbitrary inhabitants of their types.
 
-
 //@ func (p *pingDelegate) NotifyPingComplete(other *memberlist.Node, rtt time.Duration, payload []byte)
 //@   requires wf: p != nil && p.serf != nil && p.serf.config != nil && p.serf.coordClient != nil && p.serf.coordCache != nil && other != nil
 //@ end
